@@ -7,7 +7,10 @@ Open Scope N_scope.
 Record sobs := mksobs {
   so_all_have : bool; so_extracted_same : option bool; so_extractor_spawned : bool;
   so_manager_failed : bool; so_task_panics : N; so_files : N; so_bad_files : N; so_have_without_file : N;
-  so_adverts : N; so_early_adverts : N
+  so_adverts : N; so_early_adverts : N;
+  (* what 'leech' remotes received: blocks that are exactly the requested range of the original content; anything else
+     (unrequested, other bytes, a piece whose verified file does not exist at that moment); blocks that arrived after a Choke and before the next Unchoke *)
+  so_up_ok : N; so_up_bad : N; so_up_choked : N
 }.
 (* offered: every piece is offered by at least one peer that follows the protocol and stays *)
 (* sole: the scenario has a piece whose only staying holder is one honest peer (generator's flag), with how that peer
@@ -33,6 +36,15 @@ Definition o02 (c : case) : bool :=
       (negb offered || (so_all_have o && so_extractor_spawned o && match so_extracted_same o with Some true => true | _ => false end))
       && (negb (so_all_have o) || match so_extracted_same o with Some true => true | _ => false end)
   end.
+(* C09, end to end: whatever a remote that downloads from the client received is exactly what it asked for, out of the
+   verified content, and arrived while the client had it unchoked; nothing crashed *)
+Definition o09 (c : case) : bool :=
+  match c with
+  | CSys _ _ _ None => false
+  | CSys _ _ _ (Some o) =>
+      (so_up_bad o =? 0) && (so_up_choked o =? 0) && (so_task_panics o =? 0) && negb (so_manager_failed o)
+  end.
+Definition codes09s (cs : list case) : list N := map (fun c => if o09 c then 0 else 2) cs.
 Definition codes01 (cs : list case) : list N := map (fun c => if o01 c then 0 else 2) cs.
 (* known-finding classes of C02: nothing crashed and exactly the sole-holder's piece is what is still missing, and
    1 (sole-holder-idle-after-reserver-left): the holder advertised it in its bitfield and the torrent has at least
